@@ -749,7 +749,13 @@ pub fn check(case: &Case, obs: &Observed) -> Option<(String, String)> {
                         }
                     }
                     None => {
-                        if touched && !session_went {
+                        // a sending link whose transfers the peer's session window still holds back answers after
+                        // them (its detach waits behind them: 9ef99c0); a peer that never re-opens the window
+                        // does not get the answer, and that is the peer's doing
+                        let sends_before: usize = case.events[..upto.min(n_ev)].iter().filter(|e| matches!(e, Ev::LTouch(x) if case.links.get(*x).map(|(ls, snd)| *ls == s && *snd).unwrap_or(false))).count();
+                        let reopened = case.events[..upto.min(n_ev)].iter().any(|e| matches!(e, Ev::PWindow(x) if *x == s));
+                        let held_by_window = case.links[*l].1 && sends_before > case.window as usize && !reopened;
+                        if touched && !session_went && !held_by_window {
                             return Some(("peer-detach-not-answered".into(), format!("event {}: the peer detached link {} (closed={}); no detach from the client by the end of its next operation on the link (event {})", i, l, closed, upto - 1)));
                         }
                     }
@@ -1338,7 +1344,12 @@ fn correspondence(rng: &mut Rng, opts: &Opts, report: &mut Report) {
                         report.finding(Finding { kind: "violation", key: "call-never-returned:link-frames-queued".into(), description: format!("on_end did not return after the peer's end (with {} link frames queued) had been answered", queued), replay });
                         continue;
                     }
-                    if let Ok(m) = run_driver(&["E reset".to_string(), format!("E peerendq {}", we as u8), "E result".to_string()]) {
+                    // which of the two happened is the scheduler's choice (the engine picks at random between the peer's
+                    // frames and the links' frames when both wait): if every queued frame went out before the end was
+                    // taken up, nothing was queued any more and the end is the plain one
+                    let drained = seen.iter().filter(|x| *x == "transfer").count() as u32 >= queued;
+                    report.count(if drained { "peer_end_after_the_queue_drained" } else { "peer_end_with_frames_still_queued" });
+                    if let Ok(m) = run_driver(&["E reset".to_string(), format!("E {} {}", if drained { "peerend" } else { "peerendq" }, we as u8), "E result".to_string()]) {
                         report.model_lines += 3;
                         let imp_res = match res.as_str() {
                             "ok" => "ok",
